@@ -121,3 +121,110 @@ Proof.
     apply (perm_trans (l' := [0;2;1]%nat)); [apply perm_swap|]. apply perm_skip. apply perm_swap.
   - repeat split; vm_compute; reflexivity.
 Qed.
+
+(* ---- links ---- *)
+(** LINK C09 o C08: the sorter, which the theorems above take as a parameter with a
+    contract, instantiated with the model of the external parallel sort that C08 is about
+    ([Sort/Pipeline.v]: producers, buffers, batch sort, batch codecs, k-way merge with
+    tie-breaks, partitioning).  [@lpair L] and [triple L] are the same type; the orders,
+    the boundaries and the partition ids of the two models coincide. *)
+From WG Require Import Sort.Pipeline Sort.Statements Sort.SortedFacts
+  Links.SortLinkGlue Links.SortLinkStatements Links.SortLinkFacts.
+
+Theorem C09_link_types : S_link_types.
+Proof. exact link_types. Qed.
+Print Assumptions C09_link_types.
+
+(** (a) same ceiling, same boundaries for every [n] and [p], same partition id, same
+    partition predicate on valid sources; C10's uniform cutpoints are that list too *)
+Theorem C09_link_boundaries : S_link_boundaries.
+Proof. exact link_boundaries. Qed.
+Print Assumptions C09_link_boundaries.
+
+(** the two models refuse exactly the same inputs (some source out of range) *)
+Theorem C09_link_refusal : S_link_refusal.
+Proof. exact link_refusal. Qed.
+Print Assumptions C09_link_refusal.
+
+(** (b) on every in-range input the C08 pipeline returns the Transform boundaries and
+    partitions satisfying the contracts the C09 proofs use: [good] per partition, [ranged],
+    and the conclusion of [sorter_ok] for the chained partitions ... *)
+Theorem C09_link_sorter_ok : S_link_sorter_ok.
+Proof. exact link_sorter_ok. Qed.
+Print Assumptions C09_link_sorter_ok.
+
+(** ... and of [sorterd_ok] with deduplication *)
+Theorem C09_link_sorterd_ok : S_link_sorterd_ok.
+Proof. exact link_sorterd_ok. Qed.
+Print Assumptions C09_link_sorterd_ok.
+
+(** (c1) the sorter parameter defined from the C08 pipeline: the distribution functions
+    exist, the totalised sorters satisfy the pinned contracts on every list, [ext_sort]
+    uses its sorter on in-range lists only, hence the C09 theorems hold of the
+    un-totalised [pipeline_sorter] *)
+Theorem C09_link_chunk_split_ok : S_link_chunk_split_ok.
+Proof. exact link_chunk_split_ok. Qed.
+Print Assumptions C09_link_chunk_split_ok.
+
+Theorem C09_link_sorter_total : S_link_sorter_total.
+Proof. exact link_sorter_total. Qed.
+Print Assumptions C09_link_sorter_total.
+
+Theorem C09_link_ext_sort_domain : S_link_ext_sort_domain.
+Proof. exact link_ext_sort_domain. Qed.
+Print Assumptions C09_link_ext_sort_domain.
+
+Theorem C09_link_transpose_concrete : S_link_transpose_concrete.
+Proof. exact link_transpose_concrete. Qed.
+Print Assumptions C09_link_transpose_concrete.
+
+Theorem C09_link_run_xop_concrete : S_link_run_xop_concrete.
+Proof. exact link_run_xop_concrete. Qed.
+Print Assumptions C09_link_run_xop_concrete.
+
+Theorem C09_link_sorted_par_symm_concrete : S_link_sorted_par_symm_concrete.
+Proof. exact link_sorted_par_symm_concrete. Qed.
+Print Assumptions C09_link_sorted_par_symm_concrete.
+
+Theorem C09_link_run_labeled_concrete : S_link_run_labeled_concrete.
+Proof. exact link_run_labeled_concrete. Qed.
+Print Assumptions C09_link_run_labeled_concrete.
+
+(** (c2) the composition the code performs: the C08 pipeline in place of [ext_sort]; every
+    transform, sequential and parallel, both readings of the result *)
+Theorem C09_link_run_xop_composed : S_link_run_xop_composed.
+Proof. exact link_run_xop_composed. Qed.
+Print Assumptions C09_link_run_xop_composed.
+
+Theorem C09_link_run_labeled_composed : S_link_run_labeled_composed.
+Proof. exact link_run_labeled_composed. Qed.
+Print Assumptions C09_link_run_labeled_composed.
+
+(** non-vacuity: the graph and schedule of [C09_nonvacuous]; insertion sort as batch sort;
+    three producers with buffer capacities 2, 1, 0 plus the remainder producer (so several
+    batches per partition and real merges with tie-breaks); the partitions and boundaries
+    the C08 pipeline returns for the transposed arcs; an out-of-range source is refused *)
+Example C09_link_nonvacuous :
+  let g := [[1;2];[2];[0;2;3];[]] in
+  let sp := @chunk_split unit [(2,3);(1,2);(0,1)]%nat in
+  let ties := [[1;0;2;3]; [0;1]]%nat in
+  let X := arrive [2;0;1]%nat (map (flat_map phi_transpose) (blocks [0;1;1;4] (unit_labels g))) in
+  sort_ok (@isort unit) /\ split_ok sp
+  /\ X = [((2,1),tt); ((0,2),tt); ((2,2),tt); ((3,2),tt); ((1,0),tt); ((2,0),tt)]
+  /\ c08_parts isort CGaps 4 3 false false sp ties X
+     = Some ([0; 2; 4; 4],
+             [[((0,2),tt); ((1,0),tt)]; [((2,0),tt); ((2,1),tt); ((2,2),tt); ((3,2),tt)]; []])
+  /\ c08_run_xop isort CGaps true sp ties XTranspose true 3 [0;1;1;4] [2;0;1]%nat g
+     = (Some [[2];[0];[0;1;2];[2]], Some [[2];[0];[0;1;2];[2]])
+  /\ c08_run_xop isort CGrouped true sp ties (XSymm true) true 3 [0;1;1;4] [2;0;1]%nat g
+     = (Some [[1;2];[0;2];[0;1;3];[2]], Some [[1;2];[0;2];[0;1;3];[2]])
+  /\ c08_run_xop isort CGrouped false sp [] (XMap [1;1;0;0] 2) false 5 [0;1;1;4] [2;0;1]%nat g
+     = (Some [[0;1];[0;1]], Some [[0;1];[0;1]])
+  /\ transpose_par (pipeline_sorter isort CGaps 4 2 false false sp ties) 3 [0;1;1;4] [2;0;1]%nat g
+     = Some [[2];[0];[0;1;2];[2]]
+  /\ c08_parts isort CGaps 4 3 false false sp ties (((4,0),tt) :: X) = None.
+Proof.
+  cbv zeta. split; [exact (isort_ok unit)|]. split; [apply link_chunk_split_ok|].
+  repeat split; vm_compute; reflexivity.
+Qed.
+(* ---- links ---- *)
